@@ -32,7 +32,7 @@ ASSUMPTIONS = ["no faults are injected in this check (see C20)",
                "the `lock` field is excluded: _get_instance_state deliberately externalises it as False",
                "every compared instance has a session when GET /save-state is called"]
 FAULT_KINDS = ["preemption", ]
-PROBES = ["second_server_on_the_same_state_directory", "step_failed_inside_a_run_steps_request", "unstepped_session_saved_by_save_state", "saves_of_two_instances_overlap", "session_over_two_managers", "two_stepping_requests_in_flight", "numeric_manager_name", "abandoned_stream", "second_save_load_cycle", "live_instance_diverged_from_saved", "save_state_after_eviction", "second_session_in_instance", "loaded_via_timeout", "loaded_via_load_state", "loaded_via_restart", "saved_via_save_state", "compressed_mode",
+PROBES = ["stochastic_element_in_restored_session", "second_server_on_the_same_state_directory", "step_failed_inside_a_run_steps_request", "unstepped_session_saved_by_save_state", "saves_of_two_instances_overlap", "session_over_two_managers", "two_stepping_requests_in_flight", "numeric_manager_name", "abandoned_stream", "second_save_load_cycle", "live_instance_diverged_from_saved", "save_state_after_eviction", "second_session_in_instance", "loaded_via_timeout", "loaded_via_load_state", "loaded_via_restart", "saved_via_save_state", "compressed_mode",
           "step_without_body", "step_with_empty_settings", "nonuniform_settings", "decimal_dt"]
 EXHAUSTIVE = {"quick": False, "thorough": False}
 
@@ -180,6 +180,13 @@ def generate(spec):
     if len(insts) >= 2 and rng.random() < 0.5:
         case["cross_pair"] = {"sched": {"kind": "random", "seed": rng.randrange(2**32), "p": rng.choice([0.15, 0.3, 0.5])},
                               "uniform": copy.deepcopy(fixed) if uniform else None}
+    if more and rng.random() < 0.5:
+        # a stochastic element in the model (and in every session's equations): what was served for a step stays what it was
+        case["config"]["model"]["noise"] = True
+        for inst_ in case["instances"]:
+            for o_ in inst_["ops"]:
+                if o_["op"] == "begin" and "noise" not in o_["equations"]:
+                    o_["equations"] = list(o_["equations"]) + ["noise"]
     if mgr_name != "smA":
         import json
         case = json.loads(json.dumps(case).replace('"smA"', json.dumps(mgr_name)))
@@ -505,6 +512,11 @@ def execute(case):
                             break
 
         cycle(0)
+        served0 = {}
+        if case.get("more") and not res.violations:
+            for j, iid in enumerate(ids):
+                r0_ = w.get("/%s/session-results" % iid)
+                served0[j] = r0_.body if r0_.status == 200 else None
         if case.get("more") and not res.violations:
             # a second save/load cycle on the SAME server and adapter object: the restored sessions are stepped further
             # (each step is saved again), then leave memory / are reloaded again
@@ -516,10 +528,40 @@ def execute(case):
                     else:
                         r = w.post("/%s/run-steps" % iid, {"settings": o["settings"], "numberSteps": o["n"]})
                     log.add("more", j, o["op"], r.status)
+            if cfg["model"].get("noise"):
+                res.probe("stochastic_element_in_restored_session")
+            # what was served for the steps taken before the restore is still what is served for them after further steps
+            for j, iid in enumerate(ids):
+                if not isinstance(served0.get(j), dict) or res.violations:
+                    continue
+                now_ = w.get("/%s/session-results" % iid)
+                if now_.status != 200 or not isinstance(now_.body, dict):
+                    continue
+                for (path_, v0) in _leaves(served0[j]):
+                    cur = now_.body
+                    try:
+                        for k_ in path_:
+                            cur = cur[k_]
+                    except Exception:
+                        cur = "<missing>"
+                    if cur != v0 and not (cfg["adapter"] == "compressed"):
+                        res.violate("C19.1-results-differ-after-restore", {"inst": j, "route": "restored, then stepped further", "adapter": cfg["adapter"],
+                                                                           "entry": list(path_), "before": v0, "after": cur})
+                        break
             cycle(1)
     res.nontrivial = compared[0] > 0
     res.digest = log.digest()
     return res
+
+
+def _leaves(d, pre=()):
+    out = []
+    if isinstance(d, dict):
+        for k_, v in d.items():
+            out += _leaves(v, pre + (k_,))
+    else:
+        out.append((pre, d))
+    return out
 
 
 def _strip(st):
